@@ -313,6 +313,10 @@ def body(led):
     check_cfg(led)
     check_bay_fext(led)
     check_bay_fext_stiffeners(led)
+    # the bay's load vector is written with the edge flags stored on its component panels, the displacement it reports with the bay's own:
+    # the components must be created with the definition of the bay (constructor obligations of C13)
+    from . import c13_bay
+    c13_bay.check_constructors(led)
     check_solve(led)
     from . import py_static
     py_static.check_panel_static(led)
